@@ -34,7 +34,7 @@ Definition zupd {A} (l : list A) (i : Z) (v : A) : option (list A) :=
   if i <? 0 then None else upd_nat l (Z.to_nat i) v.
 
 (* selection by a generated argument-position function: the translator emits, for an argument
-   expression, a function that returns its first parameter when the expression is the first
+   expression, a function that returns its first argument when the expression is the first
    candidate and its second when it is the second; the model applies it to 0 1 *)
 Definition pick2 {A} (sel : Z) (x y : A) : option A :=
   if sel =? 0 then Some x else if sel =? 1 then Some y else None.
